@@ -59,7 +59,7 @@ func init() {
 	})
 	p.Run = func(c *Ctx) {
 		cfg := gen.Cfg{ExprDepth: 1, BodyLen: 4, Nest: 4, HostileText: true, Comments: true, Verbatim: true, If: true, For: true,
-			SetCap: true, FilterSec: true, Calls: true, Macros: true, Blocks: true}
+			SetCap: true, FilterSec: true, Calls: true, Macros: true, Blocks: true, BigText: true}
 		sub.Rapid(c, c.Share(c.Pick(20000, 1000000)), func(t *rapidT) *progCase {
 			pc := progGen(cfg)(t)
 			// '-' markers on delimiters that have no adjacent whitespace (stick
